@@ -23,6 +23,8 @@ pub const WAIT_WAKER: u32 = 208; // harness-level await: a = logical waker; r = 
 pub const H_PHASE: u32 = 209; // controller advanced the phase; a = new phase
 pub const H_TICK: u32 = 210; // clock advanced; a = new now
 pub const H_POINT: u32 = 211; // plain scheduling point inside harness code
+pub const H_FUTBORN: u32 = 214; // a harness-allocated future has been created; addr = its box, a = size
+pub const H_FUTDEAD: u32 = 213; // a harness-allocated future has been dropped; addr = its box
 pub const H_BARRIER: u32 = 212; // the process waits until the phase counter reaches a
 
 pub const TICK: u64 = 1000; // virtual nanoseconds per tick
@@ -288,9 +290,9 @@ impl Sched {
                 hard
             }
         } else if !en.is_empty() {
-            // every enabled thread is only spuriously enabled: quiescent unless we gamble
-            let p_spur = self.strat.p_spurious;
-            if self.rndf() < p_spur * 2.0 {
+            // every enabled thread is only spuriously enabled: that is quiescence, except while a thread is frozen
+            // (the freeze strategy wants the others, woken spuriously, to run on alone)
+            if self.frozen.is_some() {
                 en.clone()
             } else {
                 vec![]
@@ -462,6 +464,9 @@ impl Sched {
                     }
                 } else {
                     self.atom.insert(addr, b);
+                    if kind == kv::AB_CAS {
+                        self.spin[i] += 25; // a failed lock attempt: a lock spinner becomes idle after a few dozen of them
+                    }
                 }
             }
             kv::A8_RMW | kv::AB_RMW => {
@@ -652,6 +657,7 @@ pub fn region(addr: usize, size: usize, fi: usize) {
         return;
     }
     g().m.lock().unwrap().regions.push((addr, size, me, fi));
+    record(H_FUTBORN, addr, size as u64, 0, None);
 }
 
 pub fn stack_region(pi: usize, top: usize, size: usize) {
